@@ -503,3 +503,118 @@ Print Assumptions C10_tree_chain_is_of_the_document.
 Print Assumptions C10_tree_plain_refines.
 Print Assumptions C10_tree_abs_chain_is_scope_chain.
 Print Assumptions C10_tree_nonvacuous.
+
+(* ---- the remaining branches of get_definition, the corollary with Scoping's entry point, and
+   the two passes of the annotator ---- *)
+From GoldV Require Import AnnotModes.
+
+(* `self.<name>` (or `<own class / module>.<name>`) inside a method, the left operand being the
+   terminal whose eval type is the document's own entity (own_entity): every declaration of the
+   name along the class-level chain above the cursor's nearest table *)
+Theorem C10_tree_self_member_case :
+  forall t stem p i enc pi q up ch lft ent,
+    flat_methods t = true -> chain_for t (descend p t) = Some ch ->
+    path_up p t = (S i, enc) :: (pi, q) :: up -> is_dot q = true ->
+    first_child q = Some lft -> own_entity t lft = Some ent -> in_method (descend p t) = true ->
+    indexed1 stem ent = true ->
+    definition t stem p =
+    match get_id enc p with
+    | None => Ans []
+    | Some id =>
+        if foreign_parent t then Outside
+        else if forallb (fun h => indexed1 stem (cls_str (fst h))) (lookup_all (class_level_t ch) id)
+             then Ans (map (fun h => (a_sel (snd h), a_range (snd h))) (lookup_all (class_level_t ch) id))
+             else Ans []
+    end.
+Proof. exact definition_self_member_case. Qed.
+
+(* the declared name of a method: class-level chain; of a field / constant / type: the chain of the
+   nearest table (def_all = generate_loc_link_all, written out in C10_tree_def_all) *)
+Theorem C10_tree_declared_name_case :
+  forall t stem p idx enc pi q up ch,
+    flat_methods t = true -> chain_for t (descend p t) = Some ch ->
+    path_up p t = (idx, enc) :: (pi, q) :: up -> is_dot q = false ->
+    (is_method_node q = true -> idx = O ->
+       definition t stem p = def_all t stem (class_level_t ch) (get_id enc p)) /\
+    ((is_method_node q && Nat.eqb idx 0) = false -> is_member_decl enc = true ->
+       definition t stem p = def_all t stem ch (get_id enc p)).
+Proof. exact definition_declared_name_case. Qed.
+
+Theorem C10_tree_def_all :
+  forall t stem ch oid,
+    def_all t stem ch oid =
+    match oid with
+    | None => Ans []
+    | Some id =>
+        if foreign_parent t then Outside
+        else if forallb (fun h => indexed1 stem (cls_str (fst h))) (lookup_all ch id)
+             then Ans (map (fun h => (a_sel (snd h), a_range (snd h))) (lookup_all ch id))
+             else Ans []
+    end.
+Proof. exact def_all_eq. Qed.
+
+(* in a regular document the class-level chain above a method's table is the root table alone ... *)
+Theorem C10_tree_class_level :
+  forall t mt, regular t -> In mt (method_tables_of false t) ->
+    class_level_t [mt; root_table_of false t] = [root_table_of false t].
+Proof. exact class_level_regular. Qed.
+
+(* ... and the all-declarations look-up on it selects the declaration Scoping's search_all selects
+   on [root_table e] (= class_chain [e] (e_name e) of a parent-less entity: the chain of
+   definition_member / definition_member_name / definition_method_name), same position, or nothing *)
+Theorem C10_tree_member_refines :
+  forall t id, regular t ->
+    let e := entity_of_tree t in
+    let rt := root_table_of false t in
+    match search_all [root_table e] id with
+    | [] => lookup_all [rt] id = []
+    | [(c, y)] => exists a, lookup_all [rt] id = [(rt, a)] /\ cls_str rt = c /\ aview a = sview y /\
+                            same_decl rt (root_table e) a y
+    | _ => False
+    end.
+Proof. exact deftree_member_refines. Qed.
+
+Theorem C10_tree_class_chain_single :
+  forall e, e_parent e = None -> class_chain [e] (e_name e) = [root_table e].
+Proof. exact class_chain_single. Qed.
+
+(* the corollary with Scoping's own entry point: for a regular, parent-less, uses-less document and
+   a method whose name denotes it, resolve_plain on the one-entity workspace answers (entity, tag)
+   of the declaration y at the position where the tree-level look-up finds its declaration a *)
+Theorem C10_tree_plain_resolve :
+  forall t k mt id, regular t ->
+    nth_error (method_tables_of false t) k = Some mt ->
+    let e := entity_of_tree t in
+    e_parent e = None -> e_uses e = [] ->
+    exists me, nth_error (e_methods e) k = Some me /\
+      (find_method e (me_name me) = Some me ->
+       match resolve_plain [e] (e_name e) (Some (me_name me)) id with
+       | Some (c, tag) =>
+           exists T a y, lookup [mt; root_table_of false t] id = Some (T, a) /\ cls_str T = c /\ dtag y = tag /\
+             aview a = sview y /\
+             ((T = mt /\ same_decl mt (method_table e me) a y) \/
+              (T = root_table_of false t /\ find_in mt id = None /\ same_decl T (root_table e) a y))
+       | None => lookup [mt; root_table_of false t] id = None
+       end).
+Proof. exact deftree_plain_resolve. Qed.
+
+(* the definitions-only pass (the table OTHER documents get through
+   get_symbol_table_for_class_def_only) builds the full pass's root table, for every regular tree:
+   the same record -- for_class_or_module, every symbol with name, symbol type, selection range and
+   range in the same order, uses --; its method tables are empty copies.  No stronger shape needed. *)
+Theorem C10_tables_from_tree_modes_agree :
+  forall t, regular t ->
+    root_table_of true t = root_table_of false t /\
+    length (method_tables_of true t) = length (method_tables_of false t) /\
+    Forall (fun T => t_syms T = [] /\ t_cls T = t_cls (root_table_of false t) /\ t_uses T = t_uses (root_table_of false t))
+           (method_tables_of true t).
+Proof. exact modes_agree. Qed.
+
+Print Assumptions C10_tree_self_member_case.
+Print Assumptions C10_tree_declared_name_case.
+Print Assumptions C10_tree_def_all.
+Print Assumptions C10_tree_class_level.
+Print Assumptions C10_tree_member_refines.
+Print Assumptions C10_tree_class_chain_single.
+Print Assumptions C10_tree_plain_resolve.
+Print Assumptions C10_tables_from_tree_modes_agree.
